@@ -452,7 +452,7 @@ func genC24(c *hlib.Ctx) {
 		// starts with an arrival; no step on an obviously empty system
 		return p[0] == "a"
 	}
-	L := c.N(5, 7)
+	L := c.N(5, 6)
 	for _, entry := range []string{"h", "o"} {
 		for capacity := 1; capacity <= 2; capacity++ {
 			rec(nil, L, func(p []string) {
@@ -469,7 +469,7 @@ func genC24(c *hlib.Ctx) {
 		}
 	}
 	// longer random schedules, caps 1..4, biased towards full gates with waiters
-	for it := 0; it < c.N(100, 3000); it++ {
+	for it := 0; it < c.N(100, 2000); it++ {
 		capacity := r.Range(1, 4)
 		n := r.Range(6, 16)
 		p := make([]string, n)
